@@ -381,7 +381,9 @@ func mergeStoredAndRemap(segments []*SegmentBase, drops []*roaring.Bitmap,
 	docNumOffsets := make([]uint64, newSegDocCount)
 
 	vdc := visitDocumentCtxPool.Get().(*visitDocumentCtx)
+	verifPoolGet("vdc", vdc)
 	defer visitDocumentCtxPool.Put(vdc)
+	defer verifPoolPut("vdc", vdc)
 
 	// for each segment
 	for segI, segment := range segments {
